@@ -6,6 +6,7 @@ import json
 import math
 import os
 import re
+import unicodedata
 from fractions import Fraction
 
 import fw
@@ -101,6 +102,10 @@ class NotWireable(Exception):
     pass
 
 
+def has_surrogate(s):
+    return any(0xD800 <= ord(c) <= 0xDFFF for c in s)
+
+
 EPOCH = datetime.datetime(1970, 1, 1)
 
 
@@ -118,6 +123,8 @@ def dt_ms(v):
 
 def mwire(v, lib):
     """Python value -> driver wire value (raises NotWireable)"""
+    if isinstance(v, str) and has_surrogate(v):
+        raise NotWireable('lone surrogate')           # not a Unicode scalar value: no Lean `Char`, no JSON text for it
     if v is None or isinstance(v, (bool, str)):
         return v
     if isinstance(v, (int, float)):
@@ -133,7 +140,7 @@ def mwire(v, lib):
     if isinstance(v, list):
         return [mwire(x, lib) for x in v]
     if isinstance(v, dict):
-        return {'o': [[k, mwire(x, lib)] for k, x in v.items()]}
+        return {'o': [[mwire(k, lib), mwire(x, lib)] for k, x in v.items()]}
     if callable(v):
         for name, fn in lib.items():
             if fn is v:
@@ -185,6 +192,7 @@ POOL = [
     ('nq', 'number', fnum(-3.75)), ('nz', 'number', fnum(-0.0)), ('ne', 'number', fnum(1e15)), ('nx', 'number', fnum(2.0 ** 53)),
     ('n7', 'number', fnum(7.0)), ('i3', 'number', {'int': 3}), ('i0', 'number', {'int': 0}),
     ('se', 'string', ''), ('sa', 'string', 'abc'), ('s5', 'string', '5'), ('sn', 'string', 'null'), ('sq', 'string', 'a"bé'),
+    ('su', 'string', '\uff21\U0001f600'), ('sd', 'string', 'e\u0301'),
     ('d1', 'datetime', {'dt': [2024, 2, 29, 12, 30, 15, 250000]}), ('d0', 'datetime', {'dt': [1970, 1, 1, 0, 0, 0, 0]}),
     ('dd', 'datetime', {'date': [2024, 3, 1]}),
     ('ae', 'array', []), ('a1', 'array', [fnum(1.0), 'x"é', None]), ('a2', 'array', [[fnum(1.0)], [fnum(2.5), True]]),
@@ -267,6 +275,12 @@ def ref_norm_dt(v):
     return datetime.datetime(v.year, v.month, v.day)
 
 
+def cp_compare(a, b):
+    """two strings are ordered as the sequences of their characters (code points); a proper prefix comes first"""
+    la, lb = [ord(c) for c in a], [ord(c) for c in b]
+    return (la > lb) - (la < lb)
+
+
 def ref_compare(a, b):
     """the total value order: null first; same type by value (arrays/objects lexicographic); different types by type name"""
     ta, tb = ref_type(a), ref_type(b)
@@ -276,7 +290,9 @@ def ref_compare(a, b):
         return -1 if ta < tb else 1
     if ta == 'datetime':
         a, b = ref_norm_dt(a), ref_norm_dt(b)
-    if ta in ('string', 'boolean', 'number', 'datetime'):
+    if ta == 'string':
+        return cp_compare(a, b)
+    if ta in ('boolean', 'number', 'datetime'):
         return -1 if a < b else (0 if a == b else 1)
     if ta == 'array':
         for x, y in zip(a, b):
@@ -695,8 +711,9 @@ class Batch:
         self.pending = []          # (case.input(), impl_out, request)
         self.shared_env = None
 
-    def add(self, case, env=None, locals_=None, nontrivial=True):
-        impl, ref, fails, env, locals_ = check_case(case, env, locals_)
+    def add(self, case, env=None, locals_=None, nontrivial=True, checked=None, extra_flags=(), key=None):
+        impl, ref, fails, env, locals_ = checked if checked is not None else check_case(case, env, locals_)
+        ref.flags.update(extra_flags)
         inp = None
         for oracle, want, got in fails:
             inp = inp or case.input()
@@ -718,7 +735,8 @@ class Batch:
         else:
             tags.append('model-compared')
             self.pending.append((case, impl, req))
-        self.st.case([case.mode, case.expr, sorted(case.lspecs or {}), case.builtins], nontrivial=nontrivial, tags=tags)
+        self.st.case([case.mode, case.expr, sorted(case.lspecs or {}), case.builtins] + ([key] if key is not None else []),
+                     nontrivial=nontrivial, tags=tags)
         return impl, ref
 
     def flush(self):
@@ -780,7 +798,7 @@ def stream_matrix(ctx):
     names = QUICK_NAMES if ctx.quick else [n for n, _, _ in POOL]
     st = ctx.stream('matrix', 'EXHAUSTIVE over operand types: all 14 binary operators x all ordered pairs of pool values '
                               f'({len(names)} values covering the 9 value types: null, true/false, numbers 0 / -0.0 / 1e15 / 2^53 / fractions / ints, '
-                              "strings incl. '' and numeric-looking, datetimes and a date, arrays, objects, library and script function values, "
+                              "strings incl. '' / numeric-looking / (thorough) astral-plane and decomposed text, datetimes and a date, arrays, objects, library and script function values, "
                               'a regex) x effect placements (no / both / left / right operand wrapped in the logging call tr), plus both unary '
                               'operators: value and call log of execute_script vs the Python reference evaluator vs the Lean machine; '
                               '&&/|| must return the operand OBJECT itself; non-trivial = every case (distinct by operator, operands, placement)')
@@ -797,7 +815,7 @@ def stream_matrix(ctx):
 # ---------------------------------------------------------------------------------------------------------------------
 
 NUM_LITERALS = [0, 1, 2, 3, 5, 10, Fraction(1, 2), Fraction(5, 2), Fraction(3, 8), 1024, 10 ** 15, 2 ** 53]
-STR_LITERALS = ['', 's', 'ab', '5', ' ', 'null']
+STR_LITERALS = ['', 's', 'ab', '5', ' ', 'null', '\xe9', '\U0001f600\uff21']
 LOCAL_SHADOWS = [None, True, {'num': (4.0).hex()}, 'loc', [], {'obj': []}, {'lib': 'arrayNew'}, {'dt': [2000, 1, 2, 3, 4, 5, 6000]}]
 
 
@@ -1106,6 +1124,314 @@ def replay_model_calls(resp, env):
 
 
 # ---------------------------------------------------------------------------------------------------------------------
+# stream string-order: the six comparison operators (and +) on strings from every Unicode plane, normalisation form and case
+# ---------------------------------------------------------------------------------------------------------------------
+
+REL_OPS = ['<', '<=', '>', '>=', '==', '!=']
+ORDER_REPORT_CAP = 24          # failing pairs reported (operator by operator) per run of the stream
+
+# characters at the edges where an order other than the code point order (UTF-16 code units, a locale collation, a case- or
+# normalisation-insensitive comparison, a numeric-aware comparison, a C string, a trimmed string) gives another answer
+UNI_CHARS = [
+    '\x00', '\t', ' ', '0', '9', 'A', 'Z', '_', 'a', 'b', 'e', 'z', '~', '\x7f',                      # ASCII incl. controls
+    '\x80', '\xa0', '\xc5', '\xdf', '\xe4', '\xe9', '\xff',                                            # Latin-1
+    '\u0130', '\u0131', '\u017f', '\u0301', '\u030a', '\u03a3', '\u03c2', '\u03c3', '\u0430', '\u0663', '\u07ff',   # 2-byte UTF-8
+    '\u0800', '\u1100', '\u1161', '\u200b', '\u2028', '\u212a', '\u212b', '\u4e2d', '\uac00', '\ud7ff',      # BMP below the surrogates
+    '\ue000', '\uf900', '\ufb01', '\ufeff', '\uff21', '\uff41', '\ufffd', '\uffff',                          # BMP above the surrogates
+    '\U00010000', '\U00010400', '\U00010428', '\U0001d400', '\U0001f600', '\U0002f800', '\U000e0001', '\U0010ffff',   # planes 1, 2, 14, 16
+    '\ud800', '\udbff', '\udc00', '\udfff',                                                                   # lone surrogates (a Python str holds them)
+]
+# words with several canonically / compatibly / case-insensitively equivalent spellings
+UNI_WORDS = ['caf\xe9', '\xc5ngstr\xf6m', '\u212b', '\ufb01n', '\uac00\uac01', '\uff21\uff42\uff11', '\u0130stanbul', 'Stra\xdfe',
+             '\u03a3\u03af\u03c3\u03c5\u03c6\u03bf\u03c2', '\u1e9b\u0323', '\u01c5', '\u2126', '\u0958', 'e\u0323\u0301',
+             '\U0001d400\U0001d41b', '\U0002f800', '\U00010400\U00010428', 'a\u0308\uffe3', '10', '1e3', 'x\U0001f1e6\U0001f1e8']
+PREFIXES = ['a', '\U0001f600', 'e', '\uffff', '']
+ORDER_FORMS = ['var', 'lit', 'prefix', 'var', 'arr', 'objv', 'var', 'objk', 'arr2', 'lit']
+
+
+def spellings(word):
+    """every normalisation form, case mapping and padded variant of a word (all DISTINCT strings: distinct values for the language)"""
+    out = [word]
+    for form in ('NFC', 'NFD', 'NFKC', 'NFKD'):
+        out.append(unicodedata.normalize(form, word))
+    out += [word.lower(), word.upper(), word.casefold(), word.title(), word.swapcase(), ' ' + word, word + ' ', '\ufeff' + word,
+            word + '\u200b', word + '\x00', word + '\x00a', word + word[-1:], word[:-1]]
+    seen = []
+    for w in out:
+        if w not in seen:
+            seen.append(w)
+    return seen
+
+
+def char_class(c):
+    o = ord(c)
+    if o < 0x80:
+        return 'ascii'
+    if o < 0x100:
+        return 'latin1'
+    if o < 0x800:
+        return 'bmp-2byte'
+    if o < 0xD800:
+        return 'bmp-low'
+    if o < 0xE000:
+        return 'surrogate'
+    if o < 0x10000:
+        return 'bmp-high'
+    return 'astral'
+
+
+def order_tags(s, t):
+    """where the two strings first differ (classes of the two characters) and which coarser equivalences relate them"""
+    if s == t:
+        return ['diff:identical']
+    i = 0
+    while i < len(s) and i < len(t) and s[i] == t[i]:
+        i += 1
+    a = char_class(s[i]) if i < len(s) else 'end'
+    b = char_class(t[i]) if i < len(t) else 'end'
+    tags = ['diff:' + '|'.join(sorted([a, b]))]
+    try:
+        if (s.encode('utf-16-be', 'surrogatepass') < t.encode('utf-16-be', 'surrogatepass')) != (cp_compare(s, t) < 0):
+            tags.append('rel:utf16-order-differs')
+    except UnicodeError:
+        pass
+    for form in ('NFC', 'NFKC'):
+        if unicodedata.normalize(form, s) == unicodedata.normalize(form, t):
+            tags.append('rel:' + form.lower() + '-equivalent')
+            break
+    if s.casefold() == t.casefold():
+        tags.append('rel:casefold-equal')
+    if s.strip() == t.strip():
+        tags.append('rel:strip-equal')
+    if s.split('\x00')[0] == t.split('\x00')[0]:
+        tags.append('rel:equal-up-to-nul')
+    return tags
+
+
+def order_operands(form, s, t, prefix=''):
+    """-> (left operand expression, right operand expression, globals specs, operands are strings?)  Every form is ORDER-EMBEDDING:
+    its two operands compare exactly as s and t do (same prefix prepended; one-element arrays; one-member objects by value or key)."""
+    if form == 'lit':
+        return progen.string(s), progen.string(t), {}, True
+    if form == 'prefix':
+        return (progen.binop('+', progen.string(prefix), var('p')), progen.binop('+', progen.string(prefix), var('q')),
+                {'p': s, 'q': t}, True)
+    g = {'var': (s, t), 'arr': ([s], [t]), 'arr2': (['k', [s, None]], ['k', [t, None]]),
+         'objv': ({'obj': [['k', s]]}, {'obj': [['k', t]]}), 'objk': ({'obj': [[s, None]]}, {'obj': [[t, None]]})}[form]
+    return var('p'), var('q'), {'p': g[0], 'q': g[1]}, form == 'var'
+
+
+def order_case(form, mode, s, t, prefix='', ops=None, tags=()):
+    """arrayNew(L < R, L <= R, L > R, L >= R, L == R, L != R [, L + R]) - or a single operator when `ops` names one"""
+    left, right, gspecs, strings = order_operands(form, s, t, prefix)
+    if ops is None:
+        items = [progen.binop(op, left, right) for op in REL_OPS]
+        if strings:
+            items.append(progen.binop('+', left, right))
+        expr = progen.call('arrayNew', *items)
+        if mode == 'eval':
+            gspecs['arrayNew'] = {'lib': 'arrayNew'}
+    else:
+        expr = progen.binop(ops, left, right)
+    return Case(mode, expr, gspecs, tags=list(tags))
+
+
+def expr_has_surrogate(e):
+    (k, v), = e.items()
+    if k == 'string':
+        return has_surrogate(v)
+    if k == 'group':
+        return expr_has_surrogate(v)
+    if k == 'unary':
+        return expr_has_surrogate(v['expr'])
+    if k == 'binary':
+        return expr_has_surrogate(v['left']) or expr_has_surrogate(v['right'])
+    if k == 'function':
+        return any(expr_has_surrogate(a) for a in v['args'])
+    return False
+
+
+def order_add(batch, form, mode, s, t, prefix=''):
+    """One pair through implementation / reference / model. A failing pair is reported per OPERATOR (the smallest failing expression).
+    -> the implementation's six answers [<, <=, >, >=, ==, !=] or None"""
+    tags = ['form:' + form, 'mode:' + mode] + order_tags(s, t)
+    case = order_case(form, mode, s, t, prefix, tags=tags)
+    checked = check_case(case)
+    if checked[2] and getattr(batch, 'order_failures', 0) >= ORDER_REPORT_CAP:
+        tags.append('failure-not-reported(cap)')                                     # enough witnesses of this stream already
+        checked = (checked[0], checked[1], [], checked[3], checked[4])
+        case.tags = tags
+    elif checked[2]:
+        batch.order_failures = getattr(batch, 'order_failures', 0) + 1
+        reported = False
+        for op in REL_OPS + ['+']:
+            single = order_case(form, mode, s, t, prefix, ops=op, tags=tags)
+            one = check_case(single)
+            for oracle, want, got in one[2]:
+                batch.ctx.witness(oracle, single.input(), want, got)
+                reported = True
+        if reported:
+            checked = (checked[0], checked[1], [], checked[3], checked[4])       # already reported, operator by operator
+    flags = ['lone-surrogate'] if expr_has_surrogate(case.expr) else []
+    impl, _ = batch.add(case, nontrivial=s != t, checked=checked, extra_flags=flags, key=[form, s, t])
+    res = impl.get('result')
+    if isinstance(res, list) and len(res) >= 6 and all(isinstance(x, bool) for x in res[:6]):
+        return res[:6]
+    return None
+
+
+def rel_impl(s, t):
+    """the implementation's six answers for two string variables (expression mode, nothing else in scope)"""
+    case = order_case('var', 'eval', s, t)
+    impl, _, _ = run_impl('eval', case.expr, {k: build(v) for k, v in case.gspecs.items()})
+    res = impl.get('result')
+    return res[:6] if isinstance(res, list) and len(res) >= 6 else None
+
+
+def law_failure(law, strings):
+    """the laws of a total order on DISTINCT-or-identical strings, evaluated on the implementation. -> description of the failure or None"""
+    if law == 'operators-consistent':
+        a, b = strings
+        r, r2 = rel_impl(a, b), rel_impl(b, a)
+        if r is None or r2 is None:
+            return f'no answers: {r} {r2}'
+        lt, le, gt, ge, eq, ne = r
+        ok = (lt + eq + gt == 1 and le == (lt or eq) and ge == (gt or eq) and ne == (not eq) and lt == r2[2] and gt == r2[0]
+              and eq == r2[4] and eq == (a == b))
+        return None if ok else f'a?b [<,<=,>,>=,==,!=] = {r}, b?a = {r2}'
+    a, b, c = strings
+    ab, bc, ac = rel_impl(a, b), rel_impl(b, c), rel_impl(a, c)
+    if ab is None or bc is None or ac is None:
+        return 'no answers'
+    return f'a < b = {ab[0]}, b < c = {bc[0]}, a < c = {ac[0]}' if ab[0] and bc[0] and not ac[0] else None
+
+
+LAW_TEXT = {
+    'operators-consistent': 'exactly one of a < b, a == b, a > b; <= is < or ==; >= is > or ==; != is not ==; a < b iff b > a; '
+                            'a == b iff a and b are the same sequence of characters',
+    'transitive': 'a < b and b < c imply a < c',
+}
+
+
+def order_laws(ctx, pool, answers):
+    """answers[i][j] = the six answers of the implementation for (pool[i], pool[j]) in whichever order-embedding form the pair was run.
+    Candidates found in the matrix are confirmed on plain string variables before they are reported."""
+    n = len(pool)
+    cands = []
+    for i in range(n):
+        for j in range(i, n):
+            r, r2 = answers[i][j], answers[j][i]
+            if r is None or r2 is None:
+                continue
+            lt, le, gt, ge, eq, ne = r
+            if not (lt + eq + gt == 1 and le == (lt or eq) and ge == (gt or eq) and ne == (not eq) and lt == r2[2] and gt == r2[0]
+                    and eq == r2[4] and eq == (i == j)):
+                cands.append(('operators-consistent', [pool[i], pool[j]]))
+    below = [0] * n                     # bit j of below[i]: pool[i] < pool[j]
+    for i in range(n):
+        for j in range(n):
+            if answers[i][j] is not None and answers[i][j][0]:
+                below[i] |= 1 << j
+    for i in range(n):
+        for j in range(n):
+            if below[i] >> j & 1:
+                missing = below[j] & ~below[i]
+                if missing:
+                    k = missing.bit_length() - 1
+                    if answers[i][k] is not None:
+                        cands.append(('transitive', [pool[i], pool[j], pool[k]]))
+    reported = 0
+    for law, strings in cands:
+        got = law_failure(law, strings)
+        if got is not None:
+            ctx.witness('total-order-laws', {'law': law, 'strings': strings}, LAW_TEXT[law], got)
+            reported += 1
+            if reported >= 10:
+                break
+
+
+def random_text(rng, lo=0, hi=4):
+    return ''.join(rng.choice(UNI_CHARS[:-4] if rng.random() < 0.9 else UNI_CHARS) for _ in range(rng.randint(lo, hi)))
+
+
+def random_pair(rng):
+    base = random_text(rng, 0, 3) if rng.random() < 0.7 else rng.choice(UNI_WORDS)
+    r = rng.random()
+    if r < 0.55:
+        return base + random_text(rng, 0, 3), base + random_text(rng, 0, 3)          # common prefix, then anything (or the end)
+    s = base + random_text(rng, 0, 2)
+    if r < 0.80:
+        form = rng.choice(['NFC', 'NFD', 'NFKC', 'NFKD'])
+        try:
+            t = unicodedata.normalize(form, s)
+        except (UnicodeError, ValueError):
+            t = s
+    elif r < 0.92:
+        t = rng.choice([s.lower(), s.upper(), s.casefold(), s.swapcase(), s.strip(), s + ' ', s[::-1]])
+    else:
+        t = 'a' * 70 + s                                                                # a long common prefix
+        s = 'a' * 70 + random_text(rng, 0, 2)
+    return (s, t) if rng.random() < 0.5 else (t, s)
+
+
+def stream_string_order(ctx):
+    st = ctx.stream('string-order', 'comparisons use the total value order, for TEXT: the six comparison operators (and + on the same operands) on '
+                                    'pairs of strings drawn from every Unicode plane (ASCII incl. NUL/controls, Latin-1, 2-byte, BMP below and '
+                                    'above the surrogate block, planes 1/2/14/16, lone surrogates) - (1) ALL ordered pairs of a pool of '
+                                    'characters and character+prefix/suffix strings, (2) ALL ordered pairs among the spellings of each word '
+                                    '(NFC/NFD/NFKC/NFKD, lower/upper/casefold/title, padded with space / BOM / ZWSP / NUL, one character longer '
+                                    'or shorter), (3) random pairs with a common prefix or related by a normalisation / case mapping; each pair '
+                                    'as two variables, two literals, with one prefix prepended to both, inside one-element / nested arrays and '
+                                    'as the value or the KEY of one-member objects (all order-embedding), through execute_script and '
+                                    'evaluate_expression: implementation vs reference (code point order) vs Lean machine (lone surrogates: '
+                                    'reference only), plus the laws of a total order (trichotomy, operator consistency, equality = same '
+                                    'characters, transitivity) over the whole matrix; non-trivial = the two strings differ')
+    rng = ctx.rng('string-order')
+    batch = Batch(ctx, 'string-order', st)
+    # (1) the pool: every character alone, and behind / before a common character (the first difference is not at index 0 / the end matters)
+    pool = list(UNI_CHARS) + ['']
+    for i, c in enumerate(UNI_CHARS):
+        if not ctx.quick or i % 12 == 0:
+            pool += ['a' + c, c + 'a']
+        if not ctx.quick and i % 2 == 0:
+            pool += ['\U0001f600' + c, c + c, c + '\uffff']
+    seen = []
+    for w in pool:
+        if w not in seen:
+            seen.append(w)
+    pool = seen
+    n = len(pool)
+    answers = [[None] * n for _ in range(n)]
+    k = 0
+    for i in range(n):
+        for j in range(n):
+            k += 1
+            form = ORDER_FORMS[(i * 3 + j + (i * j) // 7) % len(ORDER_FORMS)]
+            answers[i][j] = order_add(batch, form, 'exec' if k % 3 else 'eval', pool[i], pool[j], PREFIXES[(i + j) % len(PREFIXES)])
+    batch.flush()
+    order_laws(ctx, pool, answers)
+    # (2) spellings of one word: canonically / compatibly / case-insensitively equal, yet different strings
+    for wi, word in enumerate(UNI_WORDS):
+        sp = spellings(word)
+        if ctx.quick:
+            sp = sp[:9]
+        m = len(sp)
+        ans = [[None] * m for _ in range(m)]
+        for i in range(m):
+            for j in range(m):
+                k += 1
+                form = ORDER_FORMS[(wi + i * 3 + j) % len(ORDER_FORMS)]
+                ans[i][j] = order_add(batch, form, 'exec' if k % 3 else 'eval', sp[i], sp[j], PREFIXES[(i + j) % len(PREFIXES)])
+        order_laws(ctx, sp, ans)
+    batch.flush()
+    # (3) random pairs
+    for i in range(ctx.scale(2000, 60000)):
+        s, t = random_pair(rng)
+        order_add(batch, rng.choice(ORDER_FORMS), 'exec' if i % 3 else 'eval', s, t, rng.choice(PREFIXES))
+    batch.flush()
+
+
+# ---------------------------------------------------------------------------------------------------------------------
 # corpus
 # ---------------------------------------------------------------------------------------------------------------------
 
@@ -1123,7 +1449,7 @@ def load_corpus():
 
 def stream_corpus(ctx):
     st = ctx.stream('corpus', 'hand-picked expressions (witnesses of F4 / F13, laziness and order probes, arguments-before-lookup, keywords bound as '
-                              'variables, `if` bound as a function, shadowed built-ins), parsed from text by the implementation; with an expected '
+                              'variables, `if` bound as a function, shadowed built-ins, text ordered by code points), parsed from text by the implementation; with an expected '
                               'value / log where stated; non-trivial = every entry')
     parser = fw.impl()['parser']
     batch = Batch(ctx, 'corpus', st)
@@ -1153,6 +1479,7 @@ def streams(ctx):
     stream_matrix(ctx)
     stream_expr_eval(ctx)
     stream_builtins(ctx)
+    stream_string_order(ctx)
 
 
 def disagreement_known(d, known):
@@ -1173,6 +1500,16 @@ def search(ctx):
                 return
     finally:
         ctx.quick = quick
+    for s, t in itertools.product(UNI_CHARS + [w for word in UNI_WORDS for w in spellings(word)[:6]], repeat=2):
+        case = order_case('var', 'eval', s, t)
+        _, _, fails, _, _ = check_case(case)
+        if fails:
+            for op in REL_OPS + ['+']:
+                single = order_case('var', 'eval', s, t, ops=op)
+                for oracle, want, got in check_case(single)[2]:
+                    ctx.witness(oracle, single.input(), want, got)
+        if ctx.witnesses:
+            return
     rng = ctx.rng('search')
     for i in range(ctx.scale(20000, 200000)):
         case = tree_case(rng, i)
@@ -1185,6 +1522,8 @@ def search(ctx):
 
 def replay(witness):
     oracle = witness.get('oracle')
+    if oracle == 'total-order-laws':
+        return law_failure(witness['input']['law'], witness['input']['strings']) is not None
     case = case_of_input(witness['input'])
     if oracle in ('alias-is-documented-target', 'binding-wins-over-builtin', 'corpus-expectation'):
         env = {k: build(s) for k, s in case.gspecs.items()}
@@ -1208,7 +1547,8 @@ LEVEL_TEXT = ('Theorems, for expression trees of any depth and size: in the TRAC
               'generated from EXPRESSION_FUNCTION_MAP on every run is the documented 46-entry table and every alias IS its target function '
               'object (alias_table_documented, by decide), unbound aliases resolve to it and any binding wins. Tied to runtime.py by '
               'differential correspondence (exhaustive operator x type-pair matrix with effect placements, random trees to depth 6, expression '
-              'mode with locals/builtins) and by an independent Python reference evaluator run against the implementation on every case.')
+              'mode with locals/builtins, all-pairs comparison matrices of strings from every Unicode plane / normalisation form / case with the '
+              'total-order laws) and by an independent Python reference evaluator run against the implementation on every case.')
 LEVEL_NOTE = ('Trusted: Lean kernel; extract.py (alias table + identity flags); the correspondence harness and its reference evaluator. '
               'binop_numeric_partial: / % ** results are exact rationals in the model, IEEE doubles in the code - cases with an inexact step, '
               'non-finite values, stringified datetimes / -0 / exponent-form numbers, regexes are checked against the reference evaluator only. '
